@@ -1571,9 +1571,14 @@ def gen_cases(tier, seed):
     for i in range(8 if quick else 200):
         cases.append(dict(kind="multi-assoc", k=rng.choice([3, 4, 6]), per=6, yseed=rng.getrandbits(30), i=i))
     for i in range(QUICK_CONCURRENT if quick else 240):
-        cases.append(dict(kind="concurrent", ner_rsp=("none" if i % 2 else "nonempty"), req_max=rng.choice([32, 48, 64, 128, 256]), n_pending=rng.choice([4, 6, 10]),
+        cases.append(dict(kind="concurrent", ner_rsp=("none" if i % 3 == 1 else "nonempty"), req_max=rng.choice([32, 48, 64, 128, 256]), n_pending=rng.choice([4, 6, 10]),
                           n_events=rng.choice([1, 2, 4, 6]), rsp_size=rng.choice([300, 1000, 3000]), ds_size=rng.choice([0, 300]),
                           yields=(i % 6 != 0), yseed=rng.randrange(1 << 30), gap=rng.choice([0, 0, 0.002, 0.01]), acc_max=16382))
+    # pinned: the N-EVENT-REPORT reply of rsp_size 300 encodes to 338 bytes = 13 x (32 - 6): a data set that is an exact multiple of the
+    # fragment size, once without and once with yield injection
+    for yl in (False, True):
+        cases.append(dict(kind="concurrent", ner_rsp="nonempty", req_max=32, n_pending=4, n_events=3, rsp_size=300, ds_size=0,
+                          yields=yl, yseed=12345, gap=0.002, acc_max=16382))
     return cases
 
 
